@@ -97,10 +97,15 @@ func delayMicros(seed int64, method, kind, name string) int64 {
 	return int64(h.Sum64() % 3001)
 }
 
+// span of one resource's requests: recv = first request received, done = last answer sent
+// (the successful one when a rejected create was re-sent), n = requests, ok = accepted requests,
+// rejected = requests answered by an injected 409 Conflict.
 type span struct {
 	recv, done int64
 	code       int
 	n          int
+	ok         int
+	rejected   int
 }
 
 func spans(log []sim.Event, agent, method string) map[string]*span {
@@ -124,6 +129,12 @@ func spans(log []sim.Event, agent, method string) map[string]*span {
 		case "done":
 			s.done = e.Seq
 			s.code = e.Code
+			if e.Code == 200 || e.Code == 201 {
+				s.ok++
+			}
+			if e.Injected {
+				s.rejected++
+			}
 		}
 	}
 	return out
@@ -138,6 +149,30 @@ func installOne(res *core.Result, mu *sync.Mutex, seed int64, idx int, verbose b
 			return 0
 		}
 		return time.Duration(delayMicros(seed, r.Method, r.Res.Kind, r.Name)) * time.Microsecond
+	}
+	// one-shot 409 Conflict (reason "Conflict", e.g. quota contention) on the first create of 1-3
+	// resources of different kinds in about half of the installs: the create has to be re-sent and
+	// still must be complete before the next kind starts
+	var conflictOn []bres
+	if rng.Intn(2) == 0 {
+		seenKind := map[string]bool{}
+		for _, i := range rng.Perm(len(bc.Res)) {
+			r := bc.Res[i]
+			if seenKind[r.Kind] {
+				continue
+			}
+			seenKind[r.Kind] = true
+			conflictOn = append(conflictOn, r)
+			if len(conflictOn) >= 1+rng.Intn(3) {
+				break
+			}
+		}
+		for _, r := range conflictOn {
+			r := r
+			w.Sim.AddFault(&sim.Fault{Code: 409, Once: true, Match: func(q *sim.Req) bool {
+				return q.Agent == "op" && q.Method == "POST" && q.Res != nil && q.Res.Kind == r.Kind && q.Name == r.Name
+			}})
+		}
 	}
 	var local core.Result
 	var ir, ur env.OpResult
@@ -171,7 +206,11 @@ func installOne(res *core.Result, mu *sync.Mutex, seed int64, idx int, verbose b
 		fmt.Printf("chart %d: %s\ninstall err=%v uninstall err=%v\ncreates: %s\ndeletes: %s\n", idx, describe(), ir.Err, ur.Err, trace("op", "POST"), trace("un", "DELETE"))
 	}
 	if ir.Err != nil {
-		local.Add("op-error", "install of a plain multi-kind chart failed", "err=%v | %s", ir.Err, describe())
+		cls := "install of a plain multi-kind chart failed"
+		if len(conflictOn) > 0 {
+			cls = "install failed after a one-shot 409 Conflict on a create"
+		}
+		local.Add("op-error", cls, "err=%v | conflicts on %v | %s", ir.Err, conflictOn, describe())
 	}
 	if ir.Err == nil && ur.Err != nil {
 		local.Add("op-error", "uninstall of a plain multi-kind chart failed", "err=%v | %s", ur.Err, describe())
@@ -180,12 +219,16 @@ func installOne(res *core.Result, mu *sync.Mutex, seed int64, idx int, verbose b
 	cs := spans(log, "op", "POST")
 	for _, r := range bc.Res {
 		s := cs[r.Kind+"/"+r.Name]
-		if ir.Err == nil && (s == nil || s.n != 1 || s.code != 201) {
-			n, code := 0, 0
+		if ir.Err == nil && (s == nil || s.ok != 1 || s.code != 201 || s.n != 1+s.rejected) {
+			n, ok, rej, code := 0, 0, 0, 0
 			if s != nil {
-				n, code = s.n, s.code
+				n, ok, rej, code = s.n, s.ok, s.rejected, s.code
 			}
-			local.Add("create-count", "manifest resource not created exactly once by a successful install", "%s/%s: %d create requests, last code %d | %s", r.Kind, r.Name, n, code, describe())
+			cls := "manifest resource not created exactly once by a successful install"
+			if rej > 0 {
+				cls = "manifest resource whose first create was answered 409 Conflict not created exactly once by a successful install"
+			}
+			local.Add("create-count", cls, "%s/%s: %d create requests (%d accepted, %d answered with an injected 409), last code %d | %s", r.Kind, r.Name, n, ok, rej, code, describe())
 		}
 	}
 	var pairs, capable, barriers int64
@@ -210,6 +253,9 @@ func installOne(res *core.Result, mu *sync.Mutex, seed int64, idx int, verbose b
 					cls := "create of a later known kind received before an earlier kind completed"
 					if rb < 0 {
 						cls = "create of an unknown kind received before a known kind completed"
+					}
+					if sa.rejected > 0 {
+						cls += " (the earlier create had been answered 409 Conflict once)"
 					}
 					local.Add("create-barrier", cls, "%s/%s [recv %d, done %d] (rank %d) vs %s/%s [recv %d, done %d] (rank %d) | creates: %s | %s",
 						a.Kind, a.Name, sa.recv, sa.done, ra, b.Kind, b.Name, sb.recv, sb.done, rb, trace("op", "POST"), describe())
@@ -303,6 +349,11 @@ func installOne(res *core.Result, mu *sync.Mutex, seed int64, idx int, verbose b
 	res.Violations = append(res.Violations, local.Violations...)
 	res.Evals += 2
 	res.Stat("barrier_installs", 1)
+	var rejected int64
+	for _, s := range cs {
+		rejected += int64(s.rejected)
+	}
+	res.Stat("creates_answered_409_conflict_and_resent", rejected)
 	res.Stat("create_requests_observed", int64(len(cs)))
 	res.Stat("delete_requests_observed", int64(len(ds)))
 	res.Stat("create_pairs_cross_kind_checked", pairs)
